@@ -25,6 +25,33 @@ def assemble(cpu, text, d, listing=True):
     lst = open(os.path.join(d, 'x.lst')).read() if os.path.exists(os.path.join(d, 'x.lst')) else ''
     return ''.join(x for _, x in sorted(data)), lst, ''
 
+def listing_texts(lst):
+    """Candidate texts, most likely first: all leading hex columns dropped, then one fewer (mnemonics such as `add`, `dec`,
+    `cc` look like hex columns too)."""
+    for l in lst.splitlines():
+        m = re.match(r'^0x[0-9a-f]+:\s+(.*)$', l)
+        if not m:
+            continue
+        rest = re.sub(r'\s+cycles:.*$', '', m.group(1)).rstrip()
+        toks = rest.split()
+        if not toks:
+            return []
+        w = len(toks[0])
+        k = 0
+        while k < len(toks) and len(toks[k]) == w and re.fullmatch(r'(0x)?[0-9a-f]+', toks[k]):
+            k += 1
+        if k == len(toks):
+            k = len(toks) - 1
+        out = []
+        for kk in (k, k - 1):
+            if kk >= 1:
+                parts = rest.split(None, kk)
+                if len(parts) > kk:
+                    out.append(parts[kk])
+        return out
+    return []
+
+
 def listing_text(lst):
     for l in lst.splitlines():
         m = re.match(r'^0x[0-9a-f]+:\s+(.*)$', l)
@@ -59,16 +86,32 @@ def main():
             b1, lst, err = assemble(cpu, ins, d)
             if b1 is None:
                 continue
-            t = listing_text(lst)
-            if not t:
+            ts = listing_texts(lst)
+            if not ts:
                 print('%s: NO-TEXT  %-40s' % (cpu, ins)); bad += 1; continue
-            t2 = re.sub(r'\s*\(.*?\)\s*$', '', t)       # drop trailing "(offset=..)" annotations
-            t2 = re.sub(r'\s*\{.*?\}\s*$', '', t2)
-            b2, _, err2 = assemble(cpu, t2, d)
-            if b2 is None:
-                print('%s: REJECTED %-40s -> listed as `%s`' % (cpu, ins, t)); bad += 1
-            elif b2 != b1:
-                print('%s: DIFFERS  %-40s %s -> listed as `%s` %s' % (cpu, ins, b1, t, b2)); bad += 1
+            # the text as printed first, then without trailing annotations such as (offset=..), {#1, 24}, [0x1f4]
+            verdict = None
+            for t in ts:
+                cands = [t]
+                for pat in (r'\s*\((?:offset|address|[-0-9]).*?\)\s*$', r'\s*\{#.*?\}\s*$', r'\s*\[0x[0-9a-f]+\]\s*$', r'\s+--.*$'):
+                    t3 = re.sub(pat, '', cands[-1])
+                    if t3 != cands[-1]:
+                        cands.append(t3)
+                for t2 in cands:
+                    b2, _, err2 = assemble(cpu, t2, d)
+                    if b2 is not None and b2 == b1:
+                        verdict = 'ok'
+                        break
+                    if b2 is not None and verdict is None:
+                        verdict = ('DIFFERS', t2, b2)
+                if verdict == 'ok':
+                    break
+            if verdict == 'ok':
+                continue
+            if verdict is None:
+                print('%s: REJECTED %-40s -> listed as `%s`' % (cpu, ins, ts[0])); bad += 1
+            else:
+                print('%s: DIFFERS  %-40s %s -> listed as `%s` %s' % (cpu, ins, b1, verdict[1], verdict[2])); bad += 1
     print('%s: %d instructions, %d suspicious' % (cpu, n, bad))
 
 if __name__ == '__main__':
